@@ -312,6 +312,9 @@ class EPSFStars:
 
     def __delitem__(self, index):
         del self._data[index]
+        # reset the cached properties derived from the list of stars
+        for key in ('all_stars', 'n_stars', 'n_all_stars', '_max_shape'):
+            self.__dict__.pop(key, None)
 
     def __iter__(self):
         yield from self._data
